@@ -298,7 +298,9 @@ Definition repr_pow (x : trepr) (e : Z) : result trepr :=
 Definition typed_of_value (v : Z) : trepr :=
   if v <? BB * BB then Small v else Large (to_words w (Z.to_nat (Z.log2 v / w + 1)) v).
 
-Definition trailing_zeros (v : Z) : Z := if v =? 0 then 0 else Z.log2 (Z.land v (- v)).
+(** the number of trailing zero bits (0 for 0), by the binary structure of the number *)
+Fixpoint tz_pos (p : positive) : Z := match p with xO q => 1 + tz_pos q | _ => 0 end.
+Definition trailing_zeros (v : Z) : Z := match v with Zpos p => tz_pos p | _ => 0 end.
 
 (** UBig::pow: remove the factor 2^shift, power the odd part, shift back *)
 Definition ubig_pow_asis (x : trepr) (e : Z) : result trepr :=
